@@ -27,6 +27,7 @@ pub struct Node {
     pub oh: i32,
     pub last: Option<(Point, Point)>,
     pub cap: bool, // reached through capture-only generation
+    pub cap_len: u8, // length of the capture-only chain so far
     pub root: Arc<String>,
     pub path: Option<Arc<PathNode>>,
     pub depth: u16,
@@ -34,7 +35,7 @@ pub struct Node {
 
 impl Node {
     pub fn root(pos: Pos) -> Node {
-        Node { pos, promo: None, oh: 0, last: None, cap: false, root: Arc::new(pos.fen()), path: None, depth: 0 }
+        Node { pos, promo: None, oh: 0, last: None, cap: false, cap_len: 0, root: Arc::new(pos.fen()), path: None, depth: 0 }
     }
     pub fn board(&self, h: &ZobristHasher) -> BoardState {
         let mut b = board_of_pos(&self.pos, h);
@@ -106,6 +107,7 @@ pub struct Explorer<'a> {
     pub transitions: AtomicU64,
     pub paths_replayed: AtomicU64,
     pub threads: usize,
+    pub cap_chain_limit_heavy: u8,
 }
 
 type Local = BTreeMap<&'static str, u64>;
@@ -153,6 +155,7 @@ impl<'a> Explorer<'a> {
             transitions: AtomicU64::new(0),
             paths_replayed: AtomicU64::new(0),
             threads,
+            cap_chain_limit_heavy: if rep.quick() { 3 } else { 5 },
         }
     }
 
@@ -333,6 +336,7 @@ impl<'a> Explorer<'a> {
                         oh: succ.order_heuristic,
                         last: succ.last_move,
                         cap: false,
+                        cap_len: 0,
                         root: node.root.clone(),
                         path: Some(Arc::new(PathNode { parent: node.path.clone(), mv, cap: false })),
                         depth: node.depth + 1,
@@ -389,6 +393,13 @@ impl<'a> Explorer<'a> {
                     }
                     ok = false;
                 }
+                // with much material the tree of capture sequences is astronomically large: chains from such
+                // states are followed to a stated length only (reported as a cap)
+                let heavy = pos.b.iter().filter(|x| **x != 0).count() > 12;
+                if ok && heavy && node.cap_len >= self.cap_chain_limit_heavy {
+                    bump(l, "capture_chains_cut_at_the_length_cap_for_positions_with_more_than_12_pieces");
+                    ok = false;
+                }
                 if ok {
                     let child = Node {
                         pos: want,
@@ -396,6 +407,7 @@ impl<'a> Explorer<'a> {
                         oh: succ.order_heuristic,
                         last: succ.last_move,
                         cap: true,
+                        cap_len: node.cap_len + 1,
                         root: node.root.clone(),
                         path: Some(Arc::new(PathNode { parent: node.path.clone(), mv, cap: true })),
                         depth: node.depth, // capture chains do not consume the depth budget: they run to their end
@@ -596,7 +608,7 @@ pub fn walk(ex: &Explorer, root_fen: &str, path: &[String]) -> Result<Node, Stri
         let board = node.board(&ex.h);
         let succs = generate_moves(&board, if cap { MoveGenerationMode::CapturesOnly } else { MoveGenerationMode::AllMoves }, &ex.h);
         let succ = succs.iter().find(|s| move_of_successor(&node.pos, s) == Some(mv)).ok_or(format!("the engine no longer generates {} from {}", mv.uci(), node.pos.fen()))?;
-        node = Node { pos: node.pos.make(&mv), promo: succ.pawn_promotion, oh: succ.order_heuristic, last: succ.last_move, cap, root: node.root.clone(), path: Some(Arc::new(PathNode { parent: node.path.clone(), mv, cap })), depth: node.depth + 1 };
+        node = Node { pos: node.pos.make(&mv), promo: succ.pawn_promotion, oh: succ.order_heuristic, last: succ.last_move, cap, cap_len: if cap { node.cap_len + 1 } else { 0 }, root: node.root.clone(), path: Some(Arc::new(PathNode { parent: node.path.clone(), mv, cap })), depth: node.depth + 1 };
     }
     Ok(node)
 }
@@ -1021,9 +1033,11 @@ pub fn run(rep: &Report, focus: Focus) -> E1Result {
 
     // ---- S1: reach graph, roots grouped by depth limit so that each group is one BFS
     let roots = s1_roots(quick);
-    let budget: u64 = if quick { 400_000 } else { 30_000_000 };
+    let budget: u64 = if quick { if focus.captures { 2_000_000 } else { 400_000 } } else { 30_000_000 };
     let mut by_depth: BTreeMap<u16, Vec<Node>> = BTreeMap::new();
     for (n, d) in roots {
+        // capture chains multiply the work below every state: the quick tier of C13 goes one ply less deep
+        let d = if focus.captures && quick { d.saturating_sub(1).max(1) } else { d };
         by_depth.entry(d).or_default().push(n);
     }
     for (d, group) in by_depth {
@@ -1082,12 +1096,15 @@ pub fn run(rep: &Report, focus: Focus) -> E1Result {
         );
     };
 
-    // K+k+X : 64 items by white king square
+    // K+k+X : 64 items by white king square (not in the quick tier of C13: with one further piece a capture
+    // chain has length one; the family is part of C13's thorough tier)
+    if !(focus.captures && quick) {
     run_family(
         "Kk+X (both kings anywhere, at most one further piece of any type anywhere, both sides to move)",
         (0..64u8).map(|wk| Box::new(move || family_kkx(wk..wk + 1)) as Item).collect(),
         0,
     );
+    }
     // castling
     {
         let mut items: Vec<Item> = Vec::new();
